@@ -9,6 +9,7 @@ import (
 	"os"
 	"os/exec"
 	"path/filepath"
+	"runtime"
 	"sort"
 	"strings"
 	"sync"
@@ -96,8 +97,8 @@ func solveObligation(c *Ctx, o *Obligation, idx int, opts solveOpts) {
 		secs = 1
 	}
 	stage1 := to
-	if !o.Canary && stage1 > 4*time.Second {
-		stage1 = 4 * time.Second
+	if !o.Canary && stage1 > time.Duration(4*cpuFactor())*time.Second {
+		stage1 = time.Duration(4*cpuFactor()) * time.Second
 	}
 	s1 := int(stage1.Seconds())
 	if s1 < 1 {
@@ -428,10 +429,10 @@ func solveAll(jobs []job, opts solveOpts, workers int) {
 	}
 	if os.Getenv("GOVC_NOINC") == "" {
 		tp := time.Now()
-		runPass(false, true, 1500, "no-ext")
-		runPass(false, false, 2500, "full")
+		runPass(false, true, 1500*cpuFactor(), "no-ext")
+		runPass(false, false, 2500*cpuFactor(), "full")
 		t1 := time.Since(tp).Seconds()
-		runPass(true, false, 1500, "qf-slice")
+		runPass(true, false, 1500*cpuFactor(), "qf-slice")
 		if os.Getenv("GOVC_TIMING") != "" {
 			fmt.Printf("timing: full pass %.1fs, qf-slice pass %.1fs\n", t1, time.Since(tp).Seconds()-t1)
 		}
@@ -509,4 +510,19 @@ func crossCheck(jobs []job, dir string, workers int) (map[string]int, []string) 
 	close(ch)
 	wg.Wait()
 	return counts, dis
+}
+
+// cpuFactor scales solver budgets on machines with few usable cores (the budgets are sized for 16): with n cores the
+// factor is 16/n, at least 1 and at most 4. Sixteen obligations are in flight at a time, so on a small machine each
+// solver process gets a fraction of a core.
+func cpuFactor() int {
+	n := runtime.NumCPU()
+	f := 1
+	if n < 16 {
+		f = (16 + n - 1) / n
+	}
+	if f > 4 {
+		f = 4
+	}
+	return f
 }
